@@ -161,7 +161,7 @@ def c15_jobs(ctx):
 PLANS["C15"] = dict(
     jobs=c15_jobs, replay=replay_with("c15", "C15"), profiles=("dev", "release"), abort_is_violation=True,
     rule="one evaluation = one parse call (LR or GLR, default lexer or one of three hostile user lexers) under catch_unwind with a logical clock that counts every table query, recogniser call and lexer call; "
-         "verdict: panic (any payload) or more than 20000*(bytes+1) steps = violation, process abort = violation, wall-clock watchdog = inconclusive. Grammars: every .rustemo file shipped in the repository, "
+         "verdict: panic (any payload) or more than 20000*(bytes+1) steps = violation, process abort = violation, stuck-case watchdog (CPU seconds since the last progress mark) = inconclusive. Grammars: every .rustemo file shipped in the repository, "
          "the literature corpus, random BNF (+ Layout families), lexically ambiguous terminal sets; inputs: sentences and mutations, 30 fixed Unicode/control-character noise strings, literals cut in the middle, "
          "unterminated comments, 10^5-byte inputs, 20000-token deep recursions; one worker per build runs the GLR parser over 20000-200000-token inputs (valid, and invalid at the end) on a 2 MiB stack. Debug (overflow checks, debug_assert, one shard with RUSTEMO_TRACE=1) and release builds. "
          "non-trivial = distinct (grammar, algorithm, lexer mode, outcome kind)",
